@@ -178,6 +178,52 @@ func (c *Ctx) renamedFunc(rel, recv, name string) *ssa.Function {
 	if !ok {
 		return nil
 	}
+	// some anchors are known by the part they play: the function that stable, exported entry points delegate to
+	if via, has := anchorRoles[funcKey(pk, recv, name)]; has && !c.inRole {
+		c.inRole = true
+		defer func() { c.inRole = false }()
+		if p := c.Pkgs[pkgPath(rel)]; p != nil {
+			if tn, _ := p.Types.Scope().Lookup(recv).(*types.TypeName); tn != nil {
+				if n, _ := tn.Type().(*types.Named); n != nil {
+					var found *ssa.Function
+					agree := true
+					for _, entry := range via {
+						var ef *ssa.Function
+						for _, ptr := range []bool{false, true} {
+							if ef == nil {
+								ef = c.MethodOpt(n, ptr, entry)
+							}
+						}
+						if ef == nil {
+							agree = false
+							continue
+						}
+						var callee *ssa.Function
+						ncal := 0
+						eachInstr(ef, func(in ssa.Instruction) {
+							g := staticCallee(in)
+							if g == nil || g.Signature.Recv() == nil || namedOf(g.Signature.Recv().Type()) != n || g.Object() == nil || g.Object().Exported() {
+								return
+							}
+							if callee != g {
+								callee = g
+								ncal++
+							}
+						})
+						if ncal != 1 || (found != nil && found != callee) {
+							agree = false
+							continue
+						}
+						found = callee
+					}
+					if agree && found != nil {
+						c.noteRenamed("func " + funcKey(pk, recv, name) + " -> " + found.Name() + " (the method " + strings.Join(via, ", ") + " delegate to)")
+						return found
+					}
+				}
+			}
+		}
+	}
 	var cands []*types.Func
 	for _, f := range c.pkgFuncObjs(pkgPath(rel)) {
 		if recvName(f) != recv {
@@ -382,4 +428,11 @@ func debugRename(c *Ctx) {
 		}
 	}
 	fmt.Printf("renamed %s -> %s: %d identifiers in %d files\n", target, newName, total, len(edits))
+}
+
+// anchorRoles: unexported methods identified by the exported methods of the same type that delegate to them (each
+// of those must call exactly one unexported method of the type, and all must agree).
+var anchorRoles = map[string][]string{
+	"texttable/decoration.emitter.commonTemplateLine": {"LineBottom", "LineSeparator", "LineHeaderTop"},
+	"texttable/decoration.emitter.commonRenderedLine": {"BodyLineRendered", "HeaderLineRendered"},
 }
